@@ -54,6 +54,13 @@ var solvers = []solverDef{
 	{"cvc5", func(t int, f string) []string {
 		return []string{"cvc5", "--incremental", "--enum-inst", fmt.Sprintf("--tlimit=%d", t*1000), f}
 	}},
+	// portfolio variants of z3 5.1 (a quick "unknown" is seed-dependent; another seed often finds the proof)
+	{"z3-new/seed7", func(t int, f string) []string {
+		return []string{"z3-new", fmt.Sprintf("-T:%d", t), "smt.random_seed=7", f}
+	}},
+	{"z3-new/split3", func(t int, f string) []string {
+		return []string{"z3-new", fmt.Sprintf("-T:%d", t), "auto_config=false", "smt.case_split=3", "smt.random_seed=13", f}
+	}},
 }
 
 func runSolver(sd solverDef, timeout int, file string) (answer string, out string, secs float64) {
@@ -152,11 +159,11 @@ func solveOne(o *Obligation, idx int, cfg SolverCfg) *Result {
 	if o.Negate {
 		plan = []attempt{{0, 2}}
 	} else {
-		for _, si := range []int{0, 2, 1} {
+		for _, si := range []int{0, 3, 2, 4, 1} {
 			plan = append(plan, attempt{si, short})
 		}
 		if cfg.TimeoutSec > short {
-			for _, si := range []int{0, 2, 1} {
+			for _, si := range []int{0, 2, 4, 1} {
 				plan = append(plan, attempt{si, cfg.TimeoutSec})
 			}
 		}
@@ -176,8 +183,8 @@ func solveOne(o *Obligation, idx int, cfg SolverCfg) *Result {
 			r.Status = Proved
 			r.Solver = sd.name
 			if cfg.CrossCheck {
-				for sj, other := range solvers {
-					if sj == si {
+				for sj, other := range solvers[:3] {
+					if sj == si || (si >= 3 && sj == 0) {
 						continue
 					}
 					a2, _, s2 := runSolver(other, cfg.TimeoutSec, file)
